@@ -634,6 +634,9 @@ def probe_combos(rt):
     for op in (['beats', 'tempo', 'tempo', 'reads'] if rt else ['beats', 'etempo', 'tempo', 'reads']):
         for i in range(2):
             combos.append((op, ['T', i], ['T', i]))
+    for parent in kinds:                                  # play with a Quant (default, int, tuple, Quant; negative phases) onto a TempoClock
+        for target in (['T', 0], ['T', 1]):
+            combos.append(('playq', parent, target))
     for parent in kinds:                                  # re-scheduling a task that is running / pending
         combos.append(('self_resched', parent, parent))
     for target in kinds:
@@ -659,6 +662,15 @@ def gen_probe(rng, k, rt=False):
           # RT: only move the beats forward (a task moved to the past runs at once; moved to the future it would wait)
           str(Fraction(rng.randint(512, 1024), 8) if rt else Fraction(rng.randint(0, 64), 8)),
           'after': q()}
+    if op == 'playq':
+        qn = rng.choice([1, 2, 4, 3])
+        ph = Fraction(rng.randint(-(4 * qn - 1), 4 * qn - 1), 4)          # any phase in (-quant, quant), negative ones included
+        pr['quant'] = rng.choice([None, ['int', str(qn)], ['tuple', str(qn), str(ph)], ['Quant', str(qn), str(ph)],
+                                  ['Quant', str(qn), str(-abs(ph))], ['tuple', '0', str(abs(ph))]])
+        pr['how'] = rng.choice(['routine.play', 'clock.play'])
+        pr['bpb'] = rng.choice([None, None, '3', '5'])
+        if rt:
+            pr['quant'] = rng.choice([['int', '0'], ['tuple', '0', '0'], pr['quant'] if pr['quant'] and Fraction(pr['quant'][1]) == 0 else ['int', '0']])
     if op == 'other_resched':                              # the re-scheduling must come while the victim is still pending
         pr['adv'], pr['after'] = str(Fraction(1, 8) * scale), str(scale)
         if rng.random() < 0.5:
@@ -730,6 +742,24 @@ def probe_expected(pr, o):
         exp = T + dur(tg, F(pr['delta']))
         chk('%s(%s) from a routine on %s onto %s: logical seconds when the function ran' % (op, pr['delta'], pr['parent'], tg), o['ran']['secs'], exp)
         chk('target clock beats when the function ran', o['ran']['beats'], s2b(tg, T) + (F(pr['delta']) if tg not in ('S', 'A') else dur(tg, F(pr['delta']))))
+    if op == 'playq':
+        # documented: the child starts at the NEXT beat >= now on the grid  base_bar_beat + phase + n * quant  (phase within
+        # (-quant, quant), a negative one counts back from the next grid line); quant 0: now + phase; never before now
+        qd = pr['quant']
+        qn, ph = (F(1), F(0)) if qd is None else (F(qd[1]), F(qd[2]) if len(qd) > 2 else F(0))
+        b = s2b(tg, T)
+        base = F(o['base_bar_beat'])
+        if qn == 0:
+            g = b + ph
+        else:
+            phn = ph - qn * math.floor(ph / qn)
+            g = base + phn + qn * math.ceil((b - base - phn) / qn)
+        ttempo = tempo[tg[1]]
+        chk('child played on %s with quant %s from a routine on %s at beat %s: beat of its first resumption (next grid point, never before now)'
+            % (clock_name(tg), qd, clock_name(pr['parent']), b), o['ran']['beats'], g)
+        chk('seconds of that first resumption', o['ran']['secs'], T + (g - b) / ttempo)
+        if qn != 0 and F(o['ran']['secs']) < T:
+            bad.append(('child start versus parent logical time', 'starts at %s, BEFORE the parent\'s %s' % (o['ran']['secs'], T), '>= %s' % T))
     if op == 'play':
         chk('child played on %s from a routine on %s: seconds of its first resumption' % (tg, pr['parent']), o['ran']['secs'], T)
     elif op == 'beats':
